@@ -147,14 +147,14 @@ def run_c01(ctx, C):
         C.stage_mc(ctx, m(ctx))
     # the round trip also holds when several SAs protect and unprotect at the same time
     C.stage_race(ctx, dict(module="Gen_Schedules", name="sksets", prop="C01", constants=dict(Focus='{"protect_unprotect", "reject_then_accept"}')))
-    codec_common(ctx, C, [GEN_SK, gen_hist("C01"), gen_hist("C01", long=True), gen_session("C01")], [], mcs=[MC_SK, mc_sk_knob("PeerKeys")], traces=("Trace_SK",))
+    codec_common(ctx, C, [GEN_SK, gen_hist("C01"), gen_hist("C01", long=True), gen_session("C01"), gen_obj("ikesa", "C01")], [], mcs=[MC_SK, mc_sk_knob("PeerKeys")], traces=("Trace_SK",))
 
 
 GEN_ADV = dict(module="Gen_Adversary", name="adversary")
 
 
 def run_c02(ctx, C):
-    codec_common(ctx, C, [GEN_ADV, GEN_SK, gen_hist("C02"), gen_hist("C02", long=True)], [], mcs=[MC_SK, mc_sk_knob("MacFirst"), mc_sk_knob("PeerKeys")], traces=("Trace_SK",))
+    codec_common(ctx, C, [GEN_ADV, GEN_SK, gen_hist("C02"), gen_hist("C02", long=True), gen_obj("ikesa", "C02")], [], mcs=[MC_SK, mc_sk_knob("MacFirst"), mc_sk_knob("PeerKeys")], traces=("Trace_SK",))
 
 
 def gen_hist(prop, long=False):
